@@ -196,6 +196,11 @@ func init() {
 	regRT("Ite", func(ip *Interp, fr *frame, args []Value) Value {
 		return ip.ts.Ite(asTerm(args[0]), asTerm(args[1]), asTerm(args[2]))
 	})
+	regRT("ParseLnCol", func(ip *Interp, fr *frame, args []Value) Value {
+		// "Ln <line>, Col <col>: ..." -> (line, col, ok) without forcing lazy number segments
+		line, col, ok := ip.parseLnCol(args[0])
+		return Tuple{line, col, Bool(ok)}
+	})
 	regRT("HasPrefixC", func(ip *Interp, fr *frame, args []Value) Value {
 		// prefix test that tolerates lazy/opaque tails: compares only leading bytes
 		p := argName(ip, args[1])
@@ -236,3 +241,68 @@ func (ip *Interp) hasConcretePrefix(v Value, p string) *Term {
 }
 
 var _ = types.Typ
+
+func (ip *Interp) parseLnCol(v Value) (line, col *Term, ok bool) {
+	zero := Const(64, 0)
+	type atom struct {
+		b *Term
+		g *strSeg
+	}
+	var atoms []atom
+	for _, g := range segsOf(v) {
+		switch {
+		case g.kind == segBytes:
+			for _, b := range g.b {
+				atoms = append(atoms, atom{b: b})
+			}
+		case g.kind == segNum && g.mat != nil:
+			for _, b := range g.mat {
+				atoms = append(atoms, atom{b: b})
+			}
+		default:
+			atoms = append(atoms, atom{g: g})
+		}
+		if len(atoms) > 80 {
+			break
+		}
+	}
+	i := 0
+	lit := func(s string) bool {
+		for j := 0; j < len(s); j++ {
+			if i >= len(atoms) || atoms[i].b == nil || !atoms[i].b.IsConst() || byte(atoms[i].b.k) != s[j] {
+				return false
+			}
+			i++
+		}
+		return true
+	}
+	num := func() (*Term, bool) {
+		if i < len(atoms) && atoms[i].g != nil && atoms[i].g.kind == segNum && atoms[i].g.base == 10 {
+			t := atoms[i].g.num
+			i++
+			if t.w < 64 {
+				t = ip.ts.SExt(t, 64)
+			}
+			return t, true
+		}
+		n, digits := uint64(0), 0
+		for i < len(atoms) && atoms[i].b != nil && atoms[i].b.IsConst() && atoms[i].b.k >= '0' && atoms[i].b.k <= '9' && digits < 18 {
+			n = n*10 + (atoms[i].b.k - '0')
+			i++
+			digits++
+		}
+		return Const(64, n), digits > 0
+	}
+	if !lit("Ln ") {
+		return zero, zero, false
+	}
+	l, ok1 := num()
+	if !ok1 || !lit(", Col ") {
+		return zero, zero, false
+	}
+	c, ok2 := num()
+	if !ok2 || !lit(": ") {
+		return zero, zero, false
+	}
+	return l, c, true
+}
